@@ -191,14 +191,26 @@ func cmdCheck(args []string) {
 			order = append(order, name)
 		}
 		g.results = append(g.results, r)
-		want := "unsat"
 		if r.o.Cover {
-			want = "sat"
+			continue
 		}
-		if r.r.Status != want {
+		if r.r.Status != "unsat" {
 			g.ok = false
 			if g.status == "" || r.r.Status == "sat" {
 				g.status = r.r.Status
+			}
+		}
+	}
+	// cover obligations: reachable on at least one path
+	for _, g := range groups {
+		if !g.cover {
+			continue
+		}
+		g.ok = false
+		g.status = "unreachable"
+		for _, r := range g.results {
+			if r.r.Status == "sat" {
+				g.ok = true
 			}
 		}
 	}
